@@ -50,22 +50,22 @@ struct PktRec
 	}
 };
 
-inline PktRec make_rec(int probe, sim::aux::packet const& p, bool keep_bytes)
+inline PktRec make_rec(int probe, sim::aux::packet const& p, size_t keep_bytes)
 {
 	PktRec r; r.probe = probe; r.t = now_ns(); r.type = p.type; r.seq = p.seq_nr; r.payload = int(p.buffer.size());
 	r.overhead = p.overhead; r.hash = fnv(p.buffer.data(), p.buffer.size());
 	std::ostringstream os; os << p.from; r.from = os.str(); r.chan = p.channel.get(); r.ec = p.ec.value();
 	r.byte_counter = p.byte_counter; r.has_drop_fun = bool(p.drop_fun);
-	if (keep_bytes) r.bytes.assign(reinterpret_cast<char const*>(p.buffer.data()), p.buffer.size());
+	if (keep_bytes) r.bytes.assign(reinterpret_cast<char const*>(p.buffer.data()), std::min(keep_bytes, p.buffer.size()));
 	return r;
 }
 
 // records and forwards unchanged
 struct Probe : sim::sink
 {
-	int id; std::vector<PktRec>* log; bool keep_bytes;
+	int id; std::vector<PktRec>* log; size_t keep_bytes; // number of leading payload bytes to keep (size_t(-1) = all)
 	std::function<void(PktRec const&)> on_packet;
-	Probe(int i, std::vector<PktRec>* l, bool kb = false) : id(i), log(l), keep_bytes(kb) {}
+	Probe(int i, std::vector<PktRec>* l, size_t kb = 0) : id(i), log(l), keep_bytes(kb) {}
 	void incoming_packet(sim::aux::packet p) override
 	{
 		PktRec r = make_rec(id, p, keep_bytes);
@@ -91,7 +91,7 @@ struct Adversary : sim::sink
 		int d = decide ? decide(p) : 0;
 		if (d == 0) { sim::forward_packet(std::move(p)); return; }
 		if (d == 1) {
-			if (log) { PktRec r = make_rec(id, p, false); r.probe = -id - 1; log->push_back(r); }
+			if (log) { PktRec r = make_rec(id, p, 0); r.probe = -id - 1; log->push_back(r); }
 			auto f = std::move(p.drop_fun);
 			if (f) f(std::move(p));
 			return;
@@ -142,7 +142,7 @@ struct World : sim::configuration
 
 	std::shared_ptr<sim::queue> queue(int bw, duration lat, int cap, std::string name = "q")
 	{ return std::make_shared<sim::queue>(std::ref(sim_->get_io_context()), bw, lat, cap, name); }
-	std::shared_ptr<Probe> probe(int id, bool keep_bytes = false) { return std::make_shared<Probe>(id, &log, keep_bytes); }
+	std::shared_ptr<Probe> probe(int id, size_t keep_bytes = 0) { return std::make_shared<Probe>(id, &log, keep_bytes); }
 };
 
 // global step-hook trampoline
